@@ -351,7 +351,7 @@ def cases(draw, exclude: frozenset = frozenset()):
 
 
 def shard(ctx: core.Ctx) -> None:
-	exclude = frozenset(e['exclude_flag'] for e in core.load_known('C01') if e.get('status') == 'known' and e.get('exclude_flag')) | frozenset(ctx.excluded)
+	exclude = core.frontend_exclusions() | frozenset(ctx.excluded)
 
 	def body(prog: dict) -> None:
 		fails, info = judge(ctx.scratch, prog)
